@@ -60,7 +60,7 @@ def fit_model(p, X, y, Xv, yv, c=1.0):
     import torch
     from xrfm.rfm_src import RFM
     from harness.rfmrec import ScriptedFit
-    t = lambda a: torch.from_numpy(a).to(torch.float64)
+    t = lambda a: torch.from_numpy(a).to(torch.float32 if p.get('f32') else torch.float64)
     kern = p['kernel']
     if p.get('kobj'):
         # the kernel configured as an object (the other documented way): the model's bandwidth_mode decides about adaptation,
@@ -275,6 +275,39 @@ def run_fit_case(p, drv):
     return res
 
 
+def run_fit32_case(p):
+    """float32 inputs (what every xRFM leaf sees) at several scales: the stored bandwidth is base x median distance of the stored
+    transformed centers, recomputed in float64.  Absolute thresholds on float32 round-off would show here and not in float64."""
+    import numpy as np
+    res = {'family': p['family'], 'params': p, 'disagreements': [], 'failures': [], 'dist': {}}
+    X, y, Xv, yv, Xt = make_data(p)
+    kind = KIND[p['kernel']]
+    worst = 0.0
+    for c in p['scales']:
+        try:
+            model, rec = fit_model(p, X, y, Xv, yv, c=c)
+        except Exception as e:
+            res['failures'].append({'signature': f'C19:raises:{type(e).__name__}', 'detail': f'{p["kernel"]} float32 scale {c}: {str(e)[:300]}'})
+            continue
+        kobj = model.kernel_obj
+        bw, base = float(kobj.bandwidth), float(kobj.base_bandwidth)
+        mat_t = model.M if kind == 'light' else model.sqrtM
+        mat = None if mat_t is None else mat_t.double().numpy()
+        centers = model.centers.double().numpy()
+        o_lo, o_hi = numpy_median_interval(p, centers, mat)
+        e_lo, e_hi = (base * (1.0 if o_lo < EPS_GUARD else o_lo), base * (1.0 if o_hi < EPS_GUARD else o_hi))
+        tol = 5e-3
+        worst = max(worst, abs(bw / max(e_lo, 1e-300) - 1.0))
+        if not (min(e_lo, e_hi) * (1 - tol) <= bw <= max(e_lo, e_hi) * (1 + tol)):
+            res['failures'].append({'signature': 'C19:bandwidth-not-base-times-median',
+                                    'detail': f'float32 inputs at scale {c}: stored bandwidth {bw!r}; base {base} x median distance of the stored '
+                                              f'transformed centers in [{e_lo!r}, {e_hi!r}] ({p["kernel"]}, q={p["q"]}, diag={p["diag"]}, iters={p["iters"]})'})
+    res['nontrivial'] = ['f32', p['kernel'], p['q'], p['diag'], p['iters'], p['seed']]
+    res['dist'] = {'kernel': p['kernel'], 'dtype': 'float32', 'iters': p['iters'], 'diag': p['diag']}
+    res['sample'] = {'kernel': p['kernel'], 'scales': p['scales'], 'worst_relative_bandwidth_error': worst}
+    return res
+
+
 def run_agop_step(p, drv):
     """Correspondence of `Model/AgopStep.lean` (the AGOP step whose scale covariance C19 proves) with `RFM.fit_M`:
     centers, coefficients and feature transform are set on an unfitted RFM, `fit_M(inplace=False)` returns the
@@ -371,7 +404,8 @@ def execute(chunk):
     try:
         for p in chunk['cases']:
             out.append(run_sum_power(p, drv) if p['family'] == 'sum-power-adaptive' else
-                       run_agop_step(p, drv) if p['family'] == 'agop-step' else run_fit_case(p, drv))
+                       run_agop_step(p, drv) if p['family'] == 'agop-step' else
+                       run_fit32_case(p) if p['family'] == 'adaptive-fit-float32' else run_fit_case(p, drv))
     finally:
         drv.close()
     return out
@@ -435,6 +469,13 @@ def gen_cases(run):
         cases.append(dict(family='agop-step', kernel=kernel, q=q, p=pn, base=r.choice([0.5, 1.0, 2.0, 5.0]), n=n, d=r.randint(1, 5),
                           outputs=r.choice([1, 2, 3]), transform=['none', 'full'][(t // 4) % 2], batch=r.choice([None, None, max(1, n // 3)]),
                           seed=r.randint(0, 2 ** 31 - 1)))
+    # float32 inputs (what every xRFM leaf is fitted on), several scales: bandwidth = base x median only
+    for t in range(12 if quick else 72):
+        kernel = ['l2_high_dim', 'l2', 'l1'][t % 3]
+        cases.append(dict(family='adaptive-fit-float32', kernel=kernel, q=[1.0, 1.2, 1.3, 2.0][(t // 3) % 4], p=None, base=r.choice([1.0, 5.0]),
+                          diag=bool((t // 3) % 2), iters=(t // 6) % 2, return_best=True, script=None, n=r.choice([40, 90, 150]), d=r.randint(2, 6),
+                          nv=10, nt=3, outputs=1, correlated=False, spread=[1.0, 0.05][(t // 3) % 2], shift=0.0, scales=[1e-3, 1e-2, 1.0, 1e3],
+                          seed=r.randint(0, 2 ** 31 - 1), replicates=1, f32=True))
     r.shuffle(cases)
     return cases
 
